@@ -1,12 +1,12 @@
 """C15 - one stalled peer cannot block other peers."""
 PID = "C15"
-RULE = ("server endpoint kinds reachable by a raw peer (socket, StartTLS socket, TLS socket, websocket, TLS websocket, KCP, KCP+StartTLS) x stall "
+RULE = ("server endpoint kinds reachable by a raw peer (socket, StartTLS socket, TLS socket, websocket, TLS websocket, KCP, KCP+StartTLS, DNS tunnel) x stall "
         "points {after connect, inside the first request line, between the two requests, inside a TLS hello / record header, garbage, none} x 2..3 "
         "well-behaved clients arriving meanwhile, each over its own physical session, each bounded by 3 s; plus the variant in which the "
         "stalled peer's handshake reaches its own time limit first")
 EXPLANATION = ("Props/C15.v: the accept-loop model one level up (listener loop, handshake inline or spawned - read from the source for the socket "
                "and packet servers; net/http spawns per request). The scenarios stall a raw peer and require other clients to be served.")
-TRUSTED = ["net/http's goroutine per request (websocket endpoints)", "the DNS endpoint is covered by the translator's shape fact and the model only (a DNS peer has no connection to stall)"]
+TRUSTED = ["net/http's goroutine per request (websocket endpoints)", "the DNS endpoint's sessions are stalled by real tunnel peers over loopback UDP; its housekeeping pass (once a minute) is reached in the thorough tier only"]
 RUN_TIMEOUT = 3000
 
 
@@ -40,6 +40,19 @@ def cases(tier, rng):
             continue
         line = "c15 %s %s %d 0 20" % (c, st, n)
         cs.append({"line": line, "key": line, "model": False, "tags": {"carrier": c, "stall": st + "x20"}})
+    # the DNS endpoint: a tunnel peer of the scenario's own completes the tunnel's negotiation (a session is open on the endpoint) and
+    # stalls at a point of the session handshake; five such peers at once; and sessions that outlive the tunnel's idle limit (lowered to
+    # 1 s; the thorough tier waits for the endpoint's own housekeeping pass, one minute) - others must be served all the same
+    for st in ("connect", "halfline", "between", "garbage"):
+        if tier != "thorough" and st in ("between",):
+            continue
+        line = "c15 dns %s %d" % (st, n)
+        cs.append({"line": line, "key": line, "model": False, "tags": {"carrier": "dns", "stall": st}})
+    line = "c15 dns halfline %d 0 5" % n
+    cs.append({"line": line, "key": line, "model": False, "tags": {"carrier": "dns", "stall": "halflinex5"}})
+    for ms in ((1500, 63000) if tier == "thorough" else (1500,)):
+        line = "c15 dns connect %d 0 2 %d" % (n, ms)
+        cs.append({"line": line, "key": line, "model": False, "tags": {"carrier": "dns", "stall": "connect+stale%d" % ms}})
     return cs
 
 
